@@ -734,6 +734,10 @@ func c16DrawCase(c *sim.RunCtx, nested bool) *c16Case {
 		if t.Chance(1, 12) {
 			cs.MaxSize = t.Choose(n + 2)
 		}
+		if cs.Cons == consCloneStream {
+			// what the sibling clone does: reads too / is discarded / reads one chunk and closes
+			cs.Off = t.Choose(3)
+		}
 	}
 	nh := 1
 	if nested {
